@@ -395,6 +395,11 @@ func c20GuardedValue(c *Ctx, guards []*FieldGuard) {
 					}
 				case *ssa.ChangeType:
 					uses(x, fn, d, via)
+				case *ssa.Call:
+					// copy(dst, v) reads every element of v
+					if b, ok := x.Call.Value.(*ssa.Builtin); ok && b.Name() == "copy" && len(x.Call.Args) == 2 && x.Call.Args[1] == v {
+						check(x, fn, "copy out", via)
+					}
 				case *ssa.MakeInterface:
 					// boxed: not followed
 				case *ssa.Store:
